@@ -1,7 +1,7 @@
 (** C07 — input, output and transfer reach exactly the designated parties.
     Only statements; definitions and proofs are in theories/Routing.v (model of
     runtime.transfer / _distribute / output) and theories/Shamir.v, Lagrange.v. *)
-Require Import MPyC.Base MPyC.Field MPyC.Poly MPyC.Lagrange MPyC.Shamir MPyC.Zp MPyC.Exec MPyC.Routing.
+Require Import MPyC.Base MPyC.Field MPyC.Poly MPyC.Lagrange MPyC.Shamir MPyC.Zp MPyC.Routing.
 From Coq Require Import ZArith Znumtheory.
 Local Open Scope nat_scope.
 
@@ -11,7 +11,7 @@ Local Open Scope nat_scope.
 Theorem C07_my_senders_arc :
   forall (G : Graph) (i j : nat), In i (my_senders G j) <-> arc G i j.
 Proof. exact my_senders_arc. Qed.
-Print Assumptions C07_my_senders_arc.
+Print Assumptions C07_my_senders_arc .
 
 (** ... and i sends to j exactly when j expects it (no receive without its send, no send
     without its receive); [wf] = dict keys distinct, [Some l] = the dict lookup did not fail *)
@@ -19,54 +19,54 @@ Theorem C07_transfer_matched :
   forall (G : Graph) (i j : nat) (l : list nat),
     wf G -> my_receivers G i = Some l -> (In j l <-> In i (my_senders G j)).
 Proof. exact transfer_matched. Qed.
-Print Assumptions C07_transfer_matched.
+Print Assumptions C07_transfer_matched .
 
 Theorem C07_transfer_wire_matched :
   forall (G : Graph) (i j : nat) (l : list nat),
     wf G -> transfer_sends G i = Some l -> (In j l <-> In i (transfer_recvs G j)).
 Proof. exact transfer_wire_matched. Qed.
-Print Assumptions C07_transfer_wire_matched.
+Print Assumptions C07_transfer_wire_matched .
 
 (** each party returns exactly its designated senders' objects, in sender order *)
 Theorem C07_transfer_delivers :
   forall (A : Type) (obj : nat -> A) (G : Graph) (j : nat) (l : list nat),
     my_receivers G j = Some l -> transfer_result obj G j = Ok (map obj (my_senders G j)).
 Proof. exact @transfer_delivers. Qed.
-Print Assumptions C07_transfer_delivers.
+Print Assumptions C07_transfer_delivers .
 
 Theorem C07_transfer_delivers_bip :
   forall (A : Type) (obj : nat -> A) (Sd R : list nat) (j : nat),
     (In j R -> transfer_result obj (Bip Sd R) j = Ok (map obj Sd)) /\
     (~ In j R -> transfer_result obj (Bip Sd R) j = Ok []).
 Proof. exact @transfer_delivers_bip. Qed.
-Print Assumptions C07_transfer_delivers_bip.
+Print Assumptions C07_transfer_delivers_bip .
 
 Theorem C07_transfer_delivers_pairs :
   forall (A : Type) (obj : nat -> A) (g : list (nat * nat)) (j : nat),
     transfer_result obj (Pairs g) j = Ok (map obj (map fst (filter (fun ab => snd ab =? j) g))).
 Proof. exact @transfer_delivers_pairs. Qed.
-Print Assumptions C07_transfer_delivers_pairs.
+Print Assumptions C07_transfer_delivers_pairs .
 
 Theorem C07_transfer_delivers_dict :
   forall (A : Type) (obj : nat -> A) (d : list (nat * list nat)) (j : nat),
     In j (map fst d) ->
     transfer_result obj (Dict d) j = Ok (map obj (map fst (filter (fun ab => mem j (snd ab)) d))).
 Proof. exact @transfer_delivers_dict. Qed.
-Print Assumptions C07_transfer_delivers_dict.
+Print Assumptions C07_transfer_delivers_dict .
 
 (** a party without designated sender expects nothing (and by C07_transfer_delivers returns []) *)
 Theorem C07_transfer_nonreceiver :
   forall (G : Graph) (j : nat),
     (forall i, ~ arc G i j) -> my_senders G j = [] /\ transfer_recvs G j = [].
 Proof. exact transfer_nonreceiver. Qed.
-Print Assumptions C07_transfer_nonreceiver.
+Print Assumptions C07_transfer_nonreceiver .
 
 (** [senders] an int: a receiver gets the object itself ... *)
 Theorem C07_transfer_int_receiver :
   forall (A : Type) (obj : nat -> A) (s : nat) (R : list nat) (j : nat),
     In j R -> transfer_result_int obj s R j = Ok (obj s).
 Proof. exact @transfer_int_receiver. Qed.
-Print Assumptions C07_transfer_int_receiver.
+Print Assumptions C07_transfer_int_receiver .
 
 (** ... but "non-receivers obtain None / all parties complete" is FALSE of the code as modelled,
     for an int sender with restricted receivers (outdata[0] on an empty list) and for dict graphs
@@ -76,33 +76,33 @@ Theorem C07_transfer_int_nonreceiver_error :
   forall (A : Type) (obj : nat -> A) (s : nat) (R : list nat) (j : nat),
     ~ In j R -> transfer_result_int obj s R j = IndexErr.
 Proof. exact @transfer_int_nonreceiver_error. Qed.
-Print Assumptions C07_transfer_int_nonreceiver_error.
+Print Assumptions C07_transfer_int_nonreceiver_error .
 
 Theorem C07_transfer_dict_missing_key_error :
   forall (A : Type) (obj : nat -> A) (d : list (nat * list nat)) (j : nat),
     ~ In j (map fst d) -> transfer_result obj (Dict d) j = KeyErr.
 Proof. exact @transfer_dict_missing_key_error. Qed.
-Print Assumptions C07_transfer_dict_missing_key_error.
+Print Assumptions C07_transfer_dict_missing_key_error .
 
 Theorem C07_transfer_int_sender_refuted :
   exists (s : nat) (R : list nat) (pid : nat), s < 3 /\ pid < 3 /\ (forall r, In r R -> r < 3) /\
     ~ In pid R /\ transfer_result_int (fun i => i) s R pid = IndexErr.
 Proof. exact transfer_int_sender_refuted. Qed.
-Print Assumptions C07_transfer_int_sender_refuted.
+Print Assumptions C07_transfer_int_sender_refuted .
 
 Theorem C07_transfer_dict_refuted :
   exists (d : list (nat * list nat)) (pid : nat), wf (Dict d) /\ pid < 3 /\
     (forall i j, arc (Dict d) i j -> i < 3 /\ j < 3) /\ arc (Dict d) 0 pid /\
     transfer_result (fun i => i) (Dict d) pid = KeyErr.
 Proof. exact transfer_dict_refuted. Qed.
-Print Assumptions C07_transfer_dict_refuted.
+Print Assumptions C07_transfer_dict_refuted .
 
 (** ** input: party r expects a dealing from p exactly when p deals to r *)
 Theorem C07_input_matched :
   forall (m : nat) (Sd : list nat) (p r : nat),
     r < m -> (In r (input_sends m Sd p) <-> In p (input_recvs Sd r)).
 Proof. exact input_matched. Qed.
-Print Assumptions C07_input_matched.
+Print Assumptions C07_input_matched .
 
 (** ** output, any m, any receiver list R, any threshold t' < m *)
 
@@ -112,7 +112,7 @@ Theorem C07_output_matched :
     t < m -> r < m -> s < m -> In r R ->
     (In s (out_recvs m t R r) <-> In r (out_sends m t R s)).
 Proof. exact output_matched. Qed.
-Print Assumptions C07_output_matched.
+Print Assumptions C07_output_matched .
 
 (** a receiver waits for t' shares from t' distinct parties other than itself *)
 Theorem C07_recvs_distinct :
@@ -121,7 +121,7 @@ Theorem C07_recvs_distinct :
     length (out_recvs m t R r) = t /\ NoDup (out_recvs m t R r) /\ ~ In r (out_recvs m t R r) /\
     (forall s, In s (out_recvs m t R r) -> s < m).
 Proof. exact recvs_distinct. Qed.
-Print Assumptions C07_recvs_distinct.
+Print Assumptions C07_recvs_distinct .
 
 (** a non-receiver returns None (and, C19, nobody sends to it) *)
 Theorem C07_output_nonreceiver_none :
@@ -130,7 +130,7 @@ Theorem C07_output_nonreceiver_none :
 Proof.
   intros K inj m t R q rows H. unfold output_at. apply mem_false in H. rewrite H. reflexivity.
 Qed.
-Print Assumptions C07_output_nonreceiver_none.
+Print Assumptions C07_output_nonreceiver_none .
 
 (** every receiver recombines the shared value from its own share and the shares of its t'
     predecessors, whenever the sharing has degree d <= t' — hence all receivers agree *)
@@ -142,7 +142,7 @@ Theorem C07_output_value :
       recombine_at (map (fun s => inj (S s)) (out_point_ids m t R r))
                    (map (fun s => nth s sigma (f0 K)) (out_point_ids m t R r)) (inj O) = a.
 Proof. exact output_value. Qed.
-Print Assumptions C07_output_value.
+Print Assumptions C07_output_value .
 
 (** the same through the code's list-valued recombine(points): entry h of the returned list *)
 Theorem C07_output_at_value :
@@ -154,7 +154,7 @@ Theorem C07_output_at_value :
       d <= t -> t < m -> r < m -> In r R ->
       exists y, output_at inj m t R r rows = Some y /\ nth h y (f0 K) = nth h secrets (f0 K).
 Proof. exact output_at_value. Qed.
-Print Assumptions C07_output_at_value.
+Print Assumptions C07_output_at_value .
 
 (** secret input by a sender (random_split dealing, ANY coefficient tape) opens — at any
     receiver, with any output threshold t <= t' < m — to the sender's value *)
@@ -167,7 +167,7 @@ Theorem C07_input_opens :
       recombine_at (map (fun s => inj (S s)) (out_point_ids m t' R r))
                    (map (fun s => nth s sigma (f0 K)) (out_point_ids m t' R r)) (inj O) = nth h ss (f0 K).
 Proof. exact input_opens. Qed.
-Print Assumptions C07_input_opens.
+Print Assumptions C07_input_opens .
 
 (** instance: integers modulo a prime p > m (the fields the runtime uses for secint/secfxp) *)
 Theorem C07_input_opens_Zp :
@@ -183,7 +183,7 @@ Proof.
   apply (input_opens (ZpField p Hp) (zp_of_nat p) m); auto.
   intros i j Hi Hj. apply zp_of_nat_inj; lia.
 Qed.
-Print Assumptions C07_input_opens_Zp.
+Print Assumptions C07_input_opens_Zp .
 
 (** ** non-vacuity (concrete instances meeting the hypotheses) *)
 
@@ -216,7 +216,8 @@ Proof. vm_compute. repeat split. Qed.
     receiver 0 with threshold 2 uses parties [3;4;0], with threshold 4 all five: both give 7 *)
 Example C07_output_value_nonvacuous :
   prime 11 /\
-  zp_split 11 [3; 9]%Z [7]%Z 2 5 = [[8]; [4]; [6]; [3]; [6]]%Z /\
+  map (fun i => zval (@share_at (ZpOps 11) (zp_of_nat 11) [mkZp 11 3; mkZp 11 9] (mkZp 11 7) i)) [1; 2; 3; 4; 5]
+    = [8; 4; 6; 3; 6]%Z /\
   zp_output 11 5 2 [0; 3] 0 [[8]; [4]; [6]; [3]; [6]]%Z = Some [7%Z] /\
   zp_output 11 5 4 [0; 3] 3 [[8]; [4]; [6]; [3]; [6]]%Z = Some [7%Z] /\
   zp_output 11 5 2 [0; 3] 1 [[8]; [4]; [6]; [3]; [6]]%Z = None.
